@@ -41,7 +41,7 @@ MANIFEST = {
                  'pairs; stack/level invariants checked at every probe and '
                  'after the call',
     'text': 'All ordered forests of <= 3 (quick) / <= 4 (thorough) block '
-            'nodes over 28 block kinds (in, batched in, in mapping, in over mixed pushed / unpushed items, in / batched in over an empty sequence with the blocks in the else branch, if with three named conditions, with, with only, '
+            'nodes over 31 block kinds (in, batched in, in mapping, in over mixed pushed / unpushed items, in / batched in under an item guard that refuses items (skipped or raising), in / batched in over an empty sequence with the blocks in the else branch, if with three named conditions, with, with only, '
             'let, if, try body, try handler, try/finally body, finally, '
             'raise, sub-template by name / from an expression with a client '
             'tuple / with one client and keywords, tree, tree with '
@@ -61,7 +61,7 @@ MANIFEST = {
             'states.',
 }
 DYNAMIC = True        # few heavy cases: dynamic load balancing
-RULE = ('programs: forests of <= 3 / <= 4 block nodes over 28 kinds; faults: '
+RULE = ('programs: forests of <= 3 / <= 4 block nodes over 31 kinds; faults: '
         'none, one (each ordinal x {raise HB, return}), two (second at every '
         'later ordinal; quick: for programs of <= 2 blocks).  A run is '
         'non-trivial when a fault fired (control flow was changed).')
@@ -71,7 +71,7 @@ CASE_CPU_SECONDS = 300.0
 CASE_CPU_SECONDS_QUICK = 120.0
 
 KINDS = ('in', 'inb', 'inmap', 'inbmap', 'inmix', 'inbmix', 'insortx',
-         'inbvars', 'inempty', 'inbempty', 'if2', 'with', 'withonly', 'let', 'if', 'try', 'tryh',
+         'inbvars', 'ingd', 'ingdx', 'inbgd', 'inempty', 'inbempty', 'if2', 'with', 'withonly', 'let', 'if', 'try', 'tryh',
          'tryf', 'fin', 'raise', 'sub', 'subtuple', 'subclient', 'tree', 'treex', 'treedm', 'treedp',
          'treeed')
 LEAF_ONLY = ('withonly', 'tree', 'treex', 'treedm', 'treedp', 'treeed')     # no nested blocks inside
@@ -180,6 +180,19 @@ class Builder:
                 opts = [['start', 'st%d' % k], ['size', 'sz%d' % k],
                         ['orphan', 'orp%d' % k], ['overlap', 'ov%d' % k]]
             n = ['in', N('seq%d' % k), inner, [T('empty')], opts]
+        elif kind in ('ingd', 'ingdx', 'inbgd'):
+            # the namespace carries an item guard that refuses every second
+            # item (after one that was pushed): skipped (ingd, inbgd) or
+            # reported by an exception that leaves the loop (ingdx)
+            ns['gdseq%d' % k] = ['probe', 'gdseq%d' % k, [
+                'seq', 'list', [['obj', {'e': ['lit', 1]}],
+                                ['obj', {'refuse_item': ['lit', 1]}],
+                                ['obj', {'e': ['lit', 3]}],
+                                ['obj', {'refuse_item': ['lit', 1]}]]]]
+            opts = [] if kind == 'ingdx' else [['skip_unauthorized', None]]
+            if kind == 'inbgd':
+                opts += [['size', '4'], ['orphan', '0']]
+            n = ['in', N('gdseq%d' % k), inner, None, opts]
         elif kind in ('inmap', 'inbmap'):
             # mappings as items, one of them empty (a falsy frame)
             ns['seq%d' % k] = ['probe', 'seq%d' % k, [
@@ -376,6 +389,14 @@ class SnapWorld(World):
         World.point(self, ident)
 
 
+def refusing_getitem(seq, index):
+    from zExceptions import Unauthorized
+    v = seq[index]
+    if getattr(v, 'refuse_item', False):
+        raise Unauthorized('item %d' % index)
+    return v
+
+
 def execute(nodes, ns, syntax, faults, cache=None, level0=3):
     from DocumentTemplate._DocumentTemplate import TemplateDict
     w = SnapWorld('impl', syntax, None, faults)
@@ -401,6 +422,8 @@ def execute(nodes, ns, syntax, faults, cache=None, level0=3):
     # what String.__call__ sets on the namespace of a top-level call
     md.guarded_getattr = None
     md.guarded_getitem = None
+    if any(k_.startswith('gdseq') for k_ in ns):
+        md.guarded_getitem = refusing_getitem
     w.md = md
     before = (tuple(id(f) for f in md._data), md.level)
     if cache is not None and 't' in cache:
